@@ -249,6 +249,18 @@ def run_placer(case):
     signal.alarm(120)
     try:
         try:
+            if case.get("seed", 0) % 4 == 0:
+                # the very same objects were placed once before (a program
+                # that tries one placer after another, or places again after
+                # changing something else); this call is the one judged
+                try:
+                    with sut("place[%s], first of two calls with the same "
+                             "objects" % case["placer"],
+                             (InsufficientResourceError,
+                              InvalidConstraintError)):
+                        call_placer(case, vr, nets, machine, cons, vobj)
+                except (InsufficientResourceError, InvalidConstraintError):
+                    pass
             with sut("place[%s]" % case["placer"],
                      (InsufficientResourceError, InvalidConstraintError)):
                 out = call_placer(case, vr, nets, machine, cons, vobj)
